@@ -42,7 +42,7 @@ def model_depth(block, d=0):
     return best
 
 
-STMT_KINDS = {'assign', 'call', 'print', 'do', 'while', 'repeat', 'if', 'shortif', 'fornum', 'forin', 'function',
+STMT_KINDS = {'assign', 'call', 'print', 'do', 'while', 'repeat', 'if', 'shortif', 'ifdo', 'fornum', 'forin', 'function',
               'localfunction', 'local', 'goto', 'label', 'break', 'return'}
 
 
